@@ -95,6 +95,10 @@ def rule_order(ctx: Ctx):
                           construct, "rejecting path: " + " ".join(names), valuation=val, trace=names)
                 continue
             n_exec += 1
+            if ap.cond_pol is not True:
+                rep.violation("C02.order", where, f"{eng.name}: actions run on a path that never required the guards to hold "
+                              "(a rejected candidate would run its actions)", construct,
+                              "executing path without a positive test of the COND result", trace=names)
             # ---- executing path: expected sequence from the valuation
             want_exit = (ap.internal is False) and (ap.src_present is not False)
             want_enter = ap.internal is False
